@@ -1,0 +1,14 @@
+//go:build verif
+
+package parser
+
+// VerifHook, when set, is called at every instrumented point. It exists only
+// in builds with the verif tag and is used by external verification harnesses
+// to yield to a controlled scheduler at token granularity.
+var VerifHook func(point int) //nolint:gochecknoglobals
+
+func verifHook(point int) {
+	if h := VerifHook; h != nil {
+		h(point)
+	}
+}
